@@ -43,6 +43,7 @@ def run(prog, R, tier="quick", only_rule=None):
     c03.c03f(prog, R, rid="C12.g")
     c03.c03k(prog, R, rid="C12.h")
     c12i(prog, R)
+    c12j(prog, R)
 
 
 def arith_skeleton(body, drop_methods=()):
@@ -315,4 +316,56 @@ def c12i(prog, R, rid="C12.i"):
         adv = bool(sb) and bool(bh) and must_pass(f, sb, from_bbs=[bh[0].bb]) and not any(f.dominates(b, bh[0].bb) and b != bh[0].bb for b in sb)
         r.check(adv, "%s|relative_file_pos advanced after the handle was taken, on every success path" % name,
                 "the running offset is not advanced after each partition (or is advanced before the handle is built)", f.where())
+    r.floor(4)
+
+
+def c12j(prog, R, rid="C12.j"):
+    """A full scan (Table::scan, the input side of every compaction) walks the data blocks sequentially and has no index to tell
+    it where they end: it stops after exactly `data_block_count` blocks.  The writer side of that number is C07.c/d; here the
+    reader side: the count handed to the scanner is the stored one, the first block fetched in `new` counts as one, every
+    further fetch adds one, and the only exit on an exhausted block is `read_count >= block_count`."""
+    r = R.rule(rid, "the full-table scanner reads exactly the stored number of data blocks", "B,K")
+    sc = prog.hir.get("table::Table::scan")
+    if sc is None:
+        r.anchor_missing("table::Table::scan")
+    else:
+        lets = {n["pat"]["n"]: hir_expr_str(n["init"], 200) for n in hir_walk(sc["body"]) if n.get("k") == "let" and n["pat"].get("k") == "bind" and "init" in n}
+        calls = [n for n in hir_walk(sc["body"]) if n.get("k") == "call" and (n.get("p") or "").endswith("Scanner::new")]
+        ok = len(calls) == 1 and len(calls[0]["a"]) >= 2
+        if ok:
+            a = hir_expr_str(calls[0]["a"][1], 200)
+            a = lets.get(a, a)
+            ok = a.startswith("self.metadata.data_block_count.try_into()") and not any(op in a for op in (" + ", " - ", " / ", " * ", "saturating", "min(", "max("))
+        r.check(ok, "table::Table::scan|Scanner::new(.., metadata.data_block_count, ..)", "the scanner's block count is not the table's stored data block count",
+                "", str(lets))
+    nw = prog.hir.get("table::scanner::Scanner::new")
+    if nw is None:
+        r.anchor_missing("table::scanner::Scanner::new")
+    else:
+        st = [n for n in hir_walk(nw["body"]) if n.get("k") == "struct" and n.get("p") == "table::scanner::Scanner"]
+        fetch = [n for n in hir_walk(nw["body"]) if n.get("k") == "call" and (n.get("p") or "").endswith("Scanner::fetch_next_block")]
+        flds = {f["n"]: hir_expr_str(f["e"]) for f in st[0]["f"]} if st else {}
+        r.check(len(st) == 1 and flds.get("read_count") == str(len(fetch)) and len(fetch) == 1 and flds.get("block_count") == "block_count",
+                "Scanner::new|one block fetched, read_count = 1, block_count = the parameter",
+                "the scanner's initial read count does not equal the number of blocks it has fetched (or the count is altered)", "", str(flds))
+    nx = prog.hir.get("<table::scanner::Scanner as std::iter::Iterator>::next")
+    if nx is None:
+        r.anchor_missing("Scanner::next")
+    else:
+        rets = hir_sites(nx["body"], lambda n: n.get("k") == "ret")
+        none_rets = [s for s in rets if s.node.get("e") is None or "None" in hir_expr_str(s.node["e"])]
+        stops = [s.guard_texts() for s in rets if not any("Some(item)" in g or "Result::Err" in g for g in s.guard_texts())]
+        equiv = ("(self.read_count >= self.block_count)", "(self.read_count == self.block_count)", "(self.block_count <= self.read_count)",
+                 "(self.block_count == self.read_count)", "!(self.read_count < self.block_count)", "!(self.block_count > self.read_count)")
+        r.check(len(stops) == 1 and len(stops[0]) == 1 and stops[0][0] in equiv, "Scanner::next|the only end-of-table exit is read_count >= block_count",
+                "the scanner ends the table on another condition than `read_count >= block_count`: trailing data blocks are not "
+                "scanned (their entries vanish in the next compaction) or a non-data block is read", "", str(stops))
+        incs = [n for n in hir_walk(nx["body"]) if n.get("k") == "assignop" and hir_expr_str(n["l"]) == "self.read_count"]
+        other = [n for n in hir_walk(nx["body"]) if n.get("k") == "assign" and hir_expr_str(n["l"]) in ("self.read_count", "self.block_count")]
+        fetch = hir_sites(nx["body"], lambda n: n.get("k") == "call" and (n.get("p") or "").endswith("Scanner::fetch_next_block"))
+        ok = len(incs) == 1 and incs[0].get("op") == "+=" and hir_expr_str(incs[0]["r"]) == "1" and not other and len(fetch) == 1 and fetch[0].guard_texts() == []
+        bc = [n for n in hir_walk(nx["body"]) if n.get("k") == "assignop" and hir_expr_str(n["l"]) == "self.block_count"]
+        r.check(ok and not bc, "Scanner::next|read_count += 1 once per fetched block, block_count never written",
+                "the scanner's block accounting changed: read_count is not advanced by exactly one per fetched block", "",
+                "incs=%d fetch=%d" % (len(incs), len(fetch)))
     r.floor(4)
